@@ -13,38 +13,45 @@ Definition chk_parse (c : list key * list skey) : bool :=
   subset_keys want (snd c) && subset_keys (snd c) want.
 
 (* one query on a view: (UID SEARCH?, program, ids of the SEARCH response sorted
-   ascending, the parser's values).  The hypotheses of the theorems (wf_key)
+   ascending, the parser's values each with its SearchKey.requirement).  The hypotheses of the theorems (wf_key)
    are checked too, and the RFC evaluator is run next to the model. *)
-Definition query := (bool * list key * list N * list skey)%type.
-Definition chk_query (v : view) (c : query) : bool :=
+Definition query := (bool * list key * list N * option (list (skey * N)))%type.
+Definition chk_parsed (prog : list key) (parsed : option (list (skey * N))) : bool :=
+  match parsed with
+  | None => true                 (* not sampled (compared on the Python side only) *)
+  | Some l => chk_parse (prog, map fst l) &&
+              forallb (fun kr => (requirement (fst kr) =? snd kr)%N) l
+  end.
+Definition chk_query_on (always : bool) (v : view) (c : query) : bool :=
   let '(uid, prog, obs, parsed) := c in
-  forallb wf_key prog && chk_parse (prog, parsed) &&
-  match search_model [] 0 uid (map compile prog) v with
+  forallb wf_key prog && chk_parsed prog parsed &&
+  match search_backend always [] 0 uid (map compile prog) v with
   | Ok r => eqb_list N.eqb r obs && eqb_list N.eqb (spec_search uid prog v) obs
   | _ => false
   end.
+Definition chk_query := chk_query_on true.
 
-(* A case is one mailbox: the immutable part of every message that was ever
-   probed (by UID) and the probed views (UID, sequence number, flags) with the
-   queries that ran on each. *)
+(* A case is one mailbox: the distinct message contents that were ever probed
+   (a pool, so that views share them) and the probed views (content id, UID,
+   sequence number, flags) with the queries that ran on each. *)
 Record content := mkContent {
   c_size : N; c_idate : date; c_sdate : option date;
   c_headers : list (bytes * str); c_parts : list part;
   c_emailid : bytes; c_threadid : bytes }.
-Definition pool := list (N * content).
-Definition entry := (N * N * list bytes)%type.          (* uid, seq, flags *)
+Definition pool := list (N * content).                  (* content id -> content *)
+Definition entry := (N * N * N * list bytes)%type.      (* content id, uid, seq, flags *)
 
-Fixpoint lookup (p : pool) (uid : N) : option content :=
+Fixpoint lookup (p : pool) (cid : N) : option content :=
   match p with
   | [] => None
-  | (u, c) :: r => if (u =? uid)%N then Some c else lookup r uid
+  | (u, c) :: r => if (u =? cid)%N then Some c else lookup r cid
   end.
 
 Fixpoint build_view (p : pool) (es : list entry) : option view :=
   match es with
   | [] => Some []
-  | (uid, seq, flags) :: r =>
-    match lookup p uid, build_view p r with
+  | (cid, uid, seq, flags) :: r =>
+    match lookup p cid, build_view p r with
     | Some c, Some v =>
       Some (mkMsg uid seq flags (c_size c) (c_idate c) (c_sdate c) (c_headers c)
                   (c_parts c) (c_emailid c) (c_threadid c) :: v)
@@ -52,18 +59,22 @@ Fixpoint build_view (p : pool) (es : list entry) : option view :=
     end
   end.
 
-Definition chk_box (c : pool * list (list entry * list query)) : bool :=
+Definition chk_box_on (always : bool) (c : pool * list (list entry * list query)) : bool :=
   forallb (fun vq => match build_view (fst c) (fst vq) with
-                     | Some v => wf_view v && forallb (chk_query v) (snd vq)
+                     | Some v => wf_view v && forallb (chk_query_on always v) (snd vq)
                      | None => false
                      end) (snd c).
+Definition chk_box := chk_box_on true.             (* dict: content always loaded *)
+Definition chk_box_maildir := chk_box_on false.    (* maildir: loaded on request *)
 
-Definition chk_box_query (c : pool * list entry * query) : bool :=
+Definition chk_box_query_on (always : bool) (c : pool * list entry * query) : bool :=
   let '(p, es, q) := c in
   match build_view p es with
-  | Some v => wf_view v && chk_query v q
+  | Some v => wf_view v && chk_query_on always v q
   | None => false
   end.
+Definition chk_box_query := chk_box_query_on true.
+Definition chk_box_query_maildir := chk_box_query_on false.
 
 (* SearchCriteria._in(substr, data) on str, and the bytes search of contains() *)
 Definition chk_in (c : list N * list N * bool) : bool :=
